@@ -207,8 +207,6 @@ def classify_failure(l, table, code, info):
         return None
     if ep.startswith("loki_") and tb == "time_series" and cn in ("no-date-lower", "no-type") and 100 in info:
         return "label-filter-series-scan-unbounded"
-    if ep.startswith("prom_") and tb == "time_series" and cn == "no-type" and 101 in info:
-        return "prom-labels-fetch-untyped"
     return None
 
 
@@ -280,7 +278,7 @@ def run_harness(ck, args, name):
 
 
 ALL_FINDINGS = ["tempo-tags-without-window", "trace-by-id-without-window", "profile-stats-whole-tables",
-                "label-filter-series-scan-unbounded", "prom-labels-fetch-untyped"]
+                "label-filter-series-scan-unbounded"]
 
 
 def report_known(ck, known, listed):
@@ -308,7 +306,7 @@ def theorem_of(l):
         return "label_names_every_scan_bounded (ScansPlanners.labels_query)"
     if ep.startswith("prom_range_") or ep.startswith("prom_instant"):
         if " FROM time_series" in sql and "JSONExtractKeysAndValues" in sql:
-            return "prom_labels_fetch_date_covers (+ refutation: untyped) (PromSel.labels_fetch)"
+            return "prom_labels_fetch_every_scan_bounded (PromSel.labels_fetch)"
         return "prom_every_scan_bounded (PromSel.querier_transpile)"
     if ep in PROF_EPS:
         return "prof_every_scan_bounded (ReplanProf.pprocess)"
